@@ -46,7 +46,7 @@ PROPS = {
     "C08": dict(level="exploration", race=False, quick_count=4000, quick_budget=40, thorough_budget=600),
     "C09": dict(level="exploration", race=False, quick_count=4000, quick_budget=40, thorough_budget=600),
     "C10": dict(level="fault_enumeration", race=True, quick_count=60, quick_budget=40, thorough_budget=600),
-    "C12": dict(level="exploration", race=False, quick_count=20000, quick_budget=40, thorough_budget=600),
+    "C12": dict(level="exploration", race=False, quick_count=8000, quick_budget=40, thorough_budget=600),
     "C13": dict(level="fault_enumeration", race=True, quick_count=60, quick_budget=40, thorough_budget=600),
     "C18": dict(level="exploration", race=False, quick_count=1500, quick_budget=40, thorough_budget=600),
 }
